@@ -924,34 +924,68 @@ class Translator:
                 sub["decl_type"] = None
                 for g2, x in self.stmt_steps(toks, sub):
                     out.append((list(guards) + g2, x))
+                    if x[0] == "eval" and x[1] in ("CbKernel", "CbDistance") and "seen" in env:
+                        env["seen"][0] = True       # on this path a kernel/distance evaluation has happened
             elif kind == "block":
                 out += self.body_steps(st[1], env, guards)
             elif kind == "if":
                 g = self.guard_of(st[1], env)
+                seen = env.get("seen", [False])
+                saved = seen[0]
                 if g is not None:
                     if g.get("conv"):
                         out.append((list(guards), ("conv", g["conv"][0], g["conv"][1])))
                     out += self.body_steps([st[2]], env, guards + [g])
+                    seen[0] = saved                 # what happens inside a branch does not hold after it
                     if st[3] is not None:
                         ng = dict(g)
                         ng["pos"] = not g["pos"]
                         out += self.body_steps([st[3]], env, guards + [ng])
+                        seen[0] = saved
+                elif saved and self.after_evaluation_ok(st):
+                    # C14 is about what happens BEFORE the first kernel/distance evaluation; a branch on the
+                    # data (not a pure parameters[k].is(v) guard) that is reached only after one is outside
+                    # it.  It must not check or throw; which callbacks it may call is property C13.
+                    self.notes.append("%s: data-dependent branch after the first kernel/distance evaluation is "
+                                      "outside C14 and not modelled: if ( %s )" % (env.get("where", "?"), J(st[1])[:100]))
                 else:
                     inner = self.body_steps([st[2]] + ([st[3]] if st[3] is not None else []), env, guards)
+                    seen[0] = saved
                     cond_steps = self.stmt_steps(st[1], dict(env, decl_type=None))
                     if inner or cond_steps:
                         fail("if statement with a condition that is not parameters[k].is(v) guards "
                              "parameter or callback uses: " + J(st[1]))
             elif kind == "loop":
+                seen = env.get("seen", [False])
+                saved = seen[0]
                 for part in split_top(st[1], ";"):
                     for g2, x in self.stmt_steps(part, dict(env, decl_type=None)):
                         out.append((list(guards) + g2, x))
                 out += self.body_steps([st[2]], env, guards)
+                seen[0] = saved                     # the body of a loop may run zero times
             elif kind == "try":
                 fail("try block inside a method body not understood")
             else:
                 fail("statement kind " + kind)
         return out
+
+    @staticmethod
+    def after_evaluation_ok(st):
+        """an if statement that neither checks a parameter nor throws nor returns"""
+        def toks_of(x):
+            if x is None:
+                return []
+            if x[0] == "simple":
+                return list(x[1])
+            if x[0] == "block":
+                return [t for y in x[1] for t in toks_of(y)]
+            if x[0] == "if":
+                return list(x[1]) + toks_of(x[2]) + toks_of(x[3])
+            if x[0] == "loop":
+                return list(x[1]) + toks_of(x[2])
+            return ["throw"]                        # try blocks and anything else: not understood
+        ts = toks_of(st)
+        return not any(t in ("checked", "satisfies", "orThrow", "throw", "return", "goto") for t in ts)
 
     # ---- base.hpp
     def base(self, kws, preds, enums):
@@ -1277,8 +1311,8 @@ class Translator:
                        "helpers": helpers, "cbnames": dict(CB_MEMBERS)}
                 _, _, vb = function_body(cls, ["void", "validate", "("], name + "::validate")
                 _, _, eb = function_body(cls, ["TapkeeOutput", "embed", "("], name + "::embed")
-                v = self.body_steps(parse_block(vb), dict(env, locals={}), [])
-                em = self.body_steps(parse_block(eb), dict(env, locals={}), [])
+                v = self.body_steps(parse_block(vb), dict(env, locals={}, seen=[False], where=name + "::validate"), [])
+                em = self.body_steps(parse_block(eb), dict(env, locals={}, seen=[False], where=name + "::embed"), [])
                 # nothing else in the class may touch parameters
                 rest = J(cls)
                 if rest.count("parameters [") != J(vb).count("parameters [") + J(eb).count("parameters ["):
@@ -1377,6 +1411,23 @@ class Translator:
             (vk, r"template < typename T > inline T getValue \( \) const \{ T \* v ; if \( ! isInitialized \( \) \) throw missed_parameter_error \( [^;]* \) ; "
                  r"if \( isTypeCorrect < T > \( \) \) \{ [^{}]* \} else throw wrong_parameter_type_error \( [^;]* \) ; return \* v ; \}", "ValueKeeper::getValue"),
             (po, r"template < typename T > TypePolicyBase \* getPolicy \( \) \{ static PointerTypePolicyImpl < T > policy ; return & policy ; \}", "getPolicy<T>"),
+            # conversion and checked().satisfies().orThrow(): missed, then wrong type, then the predicate, then wrong value
+            (ps, r"template < typename T > (?:inline )?operator T \( \) \{ throwIfInvalid \( \) ; try \{ return getValue < T > \( \) ; \} "
+                 r"catch \( const missed_parameter_error & \) \{ throw missed_parameter_error \( [^;]* \) ; \} \}", "Parameter::operator T"),
+            (ps, r"void throwIfInvalid \( \) \{ if \( ! valid \) \{ throw wrong_parameter_error \( invalidity_reasons \) ; \} \}", "Parameter::throwIfInvalid"),
+            (ps, r"template < typename T > bool is \( T v \) \{ if \( ! isTypeCorrect < T > \( \) \) return false ; T kv = keeper \. getValue < T > \( \) ; "
+                 r"if \( v == kv \) return true ; return false ; \}", "Parameter::is"),
+            (ps, r"(?:inline )?bool isCondition \( F < Q > cond \) const \{ return keeper \. isCondition \( cond \) ; \}", "Parameter::isCondition"),
+            (ps, r"(?:inline )?void invalidate \( const std :: string & (\w+) \) \{ valid = false ; invalidity_reasons \+= \1 ; \}", "Parameter::invalidate"),
+            (ps, r"template < typename T > (?:inline )?T getValue \( \) const \{ return keeper \. getValue < T > \( \) ; \}", "Parameter::getValue"),
+            (ps, r"template < typename T > (?:inline )?bool isTypeCorrect \( \) const \{ return keeper \. isTypeCorrect < T > \( \) ; \}", "Parameter::isTypeCorrect"),
+            (ps, r"explicit CheckedParameter \( Parameter & (\w+) \) : parameter \( \1 \) \{ \}", "CheckedParameter(Parameter&)"),
+            (ps, r"(?:inline )?const CheckedParameter & satisfies \( const F < Q > & cond \) const \{ if \( ! parameter \. isCondition \( cond \) \) "
+                 r"parameter \. invalidate \( cond \. failureMessage \( parameter \) \) ; return \* this ; \}", "CheckedParameter::satisfies"),
+            (ps, r"void orThrow \( \) const \{ parameter \. throwIfInvalid \( \) ; \}", "CheckedParameter::orThrow"),
+            (ps, r"private : Parameter & parameter ; \}", "CheckedParameter::parameter"),
+            (ps, r"(?:inline )?CheckedParameter Parameter :: checked \( \) \{ return CheckedParameter \( \* this \) ; \}", "Parameter::checked"),
+            (vk, r"(?:inline )?bool isCondition \( F < Q > cond \) const \{ Q value = getValue < Q > \( \) ; return cond \( value \) ; \}", "ValueKeeper::isCondition"),
         ]:
             if not re.search(pat, text):
                 fail("%s: shape not understood (the model takes one policy object per C++ type as the type identity)" % what)
@@ -1822,6 +1873,9 @@ def translate(repo):
 # ----------------------------------------------------------------------------- self-test
 SELF_TEST_MUTATIONS = [
     # (file under include/, old text, new text, what must change)
+    ("tapkee/predicates.hpp", "        return v > 0;", "        return v > std::numeric_limits<T>::epsilon();", "Positivity operand"),
+    ("stichwort/parameter.hpp", "            if (!pmap.count(each.first))", "            if (pmap.count(each.first))", "merge condition"),
+    ("stichwort/parameter.hpp", "    pg.add(*this);\n    pg.add(p);\n", "    pg.add(*this);\n    pg.merge(p);\n", "first comma operator"),
     ("tapkee/predicates.hpp", "return (v >= lower) && (v < upper);", "return (v >= lower) && (v <= upper);", "InRange operator"),
     ("tapkee/methods/base.hpp", "InRange<IndexType>(3, n_vectors)", "InRange<IndexType>(2, n_vectors)", "num_neighbors lower bound"),
     ("tapkee/methods/tsne.hpp", "(n_vectors - 1) / 3.0", "(n_vectors - 1) / 2.0", "perplexity bound expression"),
@@ -1837,6 +1891,11 @@ SELF_TEST_MUTATIONS = [
      "parameters[gaussian_kernel_width].checked().satisfies(NonNegativity<ScalarType>()).orThrow();", "predicate of a cell"),
     ("tapkee/methods/stochastic_proximity_embedding.hpp", "parameters[spe_global_strategy].is(false)", "parameters[spe_global_strategy].is(true)", "guard"),
     ("tapkee/methods/isomap.hpp", "find_neighbors_with(plain_distance)", "find_neighbors_with(kernel_distance)", "callback used first"),
+    ("stichwort/parameter.hpp", "        if (pmap.count(p.name()))\n            dups.push_back(p.name());\n", "", "duplicate recording in add()"),
+    ("stichwort/parameter.hpp", "            if (it != reference.pmap.end() && !each.second.hasSameTypeAs(it->second))",
+     "            if (it == reference.pmap.end())\n                return;\n            if (!each.second.hasSameTypeAs(it->second))", "checkTypes early return"),
+    ("stichwort/value_keeper.hpp", "        return getPolicy<T>() == policy;", "        return getPolicy<T>() == policy || true;", "type identity"),
+    ("tapkee/predicates.hpp", "return (v >= lower) && (v <= upper);", "return (v > lower) && (v <= upper);", "InClosedRange operator"),
 ]
 
 
